@@ -600,6 +600,7 @@ func init() {
 			{Name: "exceptions-across-modules", Count: func(string) int { return c15F4Count() }, Run: func(_ string, idx int, r *Result) { c15F4(idx, r) }},
 			{Name: "import-graphs", Count: func(string) int { return c15F3Count() }, Run: func(_ string, idx int, r *Result) { c15F3(idx, r) }},
 			{Name: "module-and-item-names-that-run-together", Count: func(string) int { return c15F7Count() }, Run: func(_ string, idx int, r *Result) { c15F7(idx, r) }},
+			{Name: "one-name-imported-twice", Count: func(string) int { return c15F8Count() }, Run: func(_ string, idx int, r *Result) { c15F8(idx, r) }},
 			{Name: "chains-main-b-a", Count: func(string) int { return c15F6Count() }, Run: func(_ string, idx int, r *Result) { c15F6(idx, r) }},
 			{Name: "ordered-import-lists-over-five-modules", Count: func(string) int { return c15F5Count() }, Run: func(_ string, idx int, r *Result) { c15F5(idx, r) }},
 		}}
